@@ -34,6 +34,20 @@
 (* form's first line.  The marker is the element's offset, so the expected *)
 (* line is the element's line, not the line where the statement begins.    *)
 (*                                                                         *)
+(* Round 5.  (a) Duplicate top-level names for every ordered pair of KINDS  *)
+(* of definition (constant, function, blob, enum): the dd_<planted>_<orig>  *)
+(* kinds; the later writing is the duplicate whatever the two kinds are;   *)
+(* likewise an import against a definition of each kind (di_<imp>_<orig>). *)
+(* (b) Names declared twice INSIDE one declaration (blob fields, enum      *)
+(* variants), on one line and on different lines: the offending element is *)
+(* the second writing of the name.  (c) Conflict markers: the begin marker *)
+(* alone, a whole conflict block (element = its first line), the other two *)
+(* markers alone, and two begin markers in one file (BOTH must be located: *)
+(* the second error of the compiler is observed for TwoKinds).  (d) Marker *)
+(* look-alikes as preceding text: `<<<<<<<` not at the start of a line (in  *)
+(* a comment, in a string, on a continuation line of a string), `=======`  *)
+(* and `>>>>>>>` in comments and at the start of a line inside a string.   *)
+(*                                                                         *)
 (* Preceding text shapes: string literals whose content spans lines in     *)
 (* every way (ends with / begins with / consists only of newlines, holds a *)
 (* blank line, holds CRLF, ends with CRLF), in every place a string can    *)
@@ -48,6 +62,29 @@ diagvars == <<text, pos, toks, ln>>
 
 ---------------------------------------------------------------------------
 (* The universe *)
+(* The kinds of definition a top-level name can have; a duplicate name is one kind written against another
+   (dd_<planted>_<orig>, planted fastest): the templates hold one definition of each kind (OrigName). *)
+DefForms == <<"val", "fn", "blob", "enum">>
+NDF == Len(DefForms)
+DDName(pf, of) == "dd_" \o pf \o "_" \o of
+DDKindSeq == [i \in 1..(NDF * NDF) |-> DDName(DefForms[((i - 1) % NDF) + 1], DefForms[((i - 1) \div NDF) + 1])]
+DDKinds == {DDKindSeq[i] : i \in 1..Len(DDKindSeq)}
+DDPair(kind) == CHOOSE pr \in {<<DefForms[a], DefForms[b]>> : a, b \in 1..NDF} : DDName(pr[1], pr[2]) = kind
+OrigName(of) == CASE of = "val" -> "Dv" [] of = "fn" -> "Df" [] of = "blob" -> "Db" [] of = "enum" -> "De"
+\* a definition of kind pf of the name nm, on one line
+PlantDef(pf, nm) == CASE pf = "val"  -> nm \o " :: 7"
+                      [] pf = "fn"   -> nm \o " :: fn -> int do ret 7 end"
+                      [] pf = "blob" -> nm \o " :: blob { z: int }"
+                      [] pf = "enum" -> nm \o " :: enum Za, Zb end"
+\* an import (`use .. as`, `from .. use .. as`) that brings a name in against a definition of each kind: di_<import>_<orig>
+ImpForms == <<"use", "from">>
+NIF == Len(ImpForms)
+DIName(im, of) == "di_" \o im \o "_" \o of
+DIKindSeq == [i \in 1..(NIF * NDF) |-> DIName(ImpForms[((i - 1) % NIF) + 1], DefForms[((i - 1) \div NIF) + 1])]
+DIKinds == {DIKindSeq[i] : i \in 1..Len(DIKindSeq)}
+DIPair(kind) == CHOOSE pr \in {<<ImpForms[a], DefForms[b]>> : a \in 1..NIF, b \in 1..NDF} : DIName(pr[1], pr[2]) = kind
+PlantImp(im, nm) == CASE im = "use" -> "use /twin as " \o nm [] im = "from" -> "from /twin use lv as " \o nm
+
 Kinds  == <<"syn_rparen", "syn_char", "unresolved", "dup_global", "const_local", "const_global",
             "const_param", "op_mismatch", "arg_mismatch", "annot_mismatch", "break_outside", "conflict",
             "dup_import", "dup_from_import",
@@ -56,6 +93,9 @@ Kinds  == <<"syn_rparen", "syn_char", "unresolved", "dup_global", "const_local",
             "ml_unres_arg", "ml_unres_list", "ml_unres_tuple", "ml_unres_blob",
             "ml_from_2nd", "ml_from_3rd", "ml_from_last",
             "ml_op_paren", "ml_op_cond", "ml_const_lambda">>
+          \o <<"conflict_eq", "conflict_gt", "conflict_block", "conflict_two">> \o DDKindSeq \o DIKindSeq
+          \o <<"dup_field1", "dup_variant1", "ml_dup_field_adj", "ml_dup_field_gap", "ml_dup_field_last",
+               "ml_dup_field_col", "ml_dup_variant_adj", "ml_dup_variant_gap", "ml_dup_variant_last">>
 Files  == <<"main", "sibling", "sub">>
 Poss   == <<"top_first", "top_mid", "top_last", "fn_body", "if_branch">>
 BaseShapes == <<"none", "ascii_comment", "nonascii_comment", "nonascii_string", "ml_string2", "ml_string3",
@@ -89,7 +129,11 @@ PairOf(shape) == CHOOSE cp \in Range(NewPairs) : StrShapeName(cp[1], cp[2]) = sh
 \* a comment directly followed by such a literal, such a literal directly followed by a comment, non-ASCII inside one
 ComboShapes == <<"cmt_endnl", "cmt_startnl", "cmt_onlynl", "endnl_cmt", "nonascii_endnl">>
 
-Shapes == BaseShapes \o StrShapes \o ComboShapes
+\* conflict-marker look-alikes: the begin marker where it is no conflict (not at the start of a line), the other two
+\* markers in comments and at the start of a line inside a string literal
+MarkShapes == <<"mk_lt_cmt", "mk_lt_str", "mk_lt_mlstr", "mk_eq_mlstr", "mk_gt_mlstr", "mk_eqgt_cmt", "mk_lt_two">>
+
+Shapes == BaseShapes \o StrShapes \o ComboShapes \o MarkShapes
 
 (* Layout of the modules a colliding name is imported from (leaf.sy and twin.sy both define lv): the line number of
    that definition relative to the line number of the colliding `from .. use` statement in the case's file. *)
@@ -116,14 +160,26 @@ InFnPos == {"fn_body", "if_branch", "nested"}      \* "nested" only occurs in th
 (* Where a kind can be written at all: a global can only be (re)defined at the top level; a local
    constant and its assignment need two statements, which a one-line top-level function cannot hold. *)
 DupKinds == {"dup_global", "dup_import", "dup_from_import", "dup_use_use", "dup_from_from", "dup_from_use", "dup_use_from"}
+            \cup DDKinds \cup DIKinds
 \* duplicates one of whose introductions is a `from .. use` of a name defined in another module: only for these does
 \* the layout of that module (rel) mean anything; all other kinds keep the plain layout (definition on line 1)
 FromKinds == {"dup_from_import", "dup_from_from", "dup_from_use", "dup_use_from"}
 \* the planted form spans lines, its offending element stands on a later line than its first line
 MLKinds == {"ml_arg_paren", "ml_arg_prime", "ml_arg_nested", "ml_unres_arg", "ml_unres_list", "ml_unres_tuple",
-            "ml_unres_blob", "ml_from_2nd", "ml_from_3rd", "ml_from_last", "ml_op_paren", "ml_op_cond", "ml_const_lambda"}
+            "ml_unres_blob", "ml_from_2nd", "ml_from_3rd", "ml_from_last", "ml_op_paren", "ml_op_cond", "ml_const_lambda",
+            "ml_dup_field_adj", "ml_dup_field_gap", "ml_dup_field_last", "ml_dup_field_col",
+            "ml_dup_variant_adj", "ml_dup_variant_gap", "ml_dup_variant_last"}
 MLFromKinds == {"ml_from_2nd", "ml_from_3rd", "ml_from_last"}      \* imports: top level only
-Applicable(c) == /\ CASE c.kind \in DupKinds \cup MLFromKinds -> c.pos \in TopPos
+\* the planted form spans lines and its (first) offending element is its FIRST line
+BlockKinds == {"conflict_block", "conflict_two"}
+MultiKinds == MLKinds \cup BlockKinds
+\* forms with TWO offending elements, each of which the compiler must locate (its first and its second error)
+TwoKinds == {"conflict_two"}
+\* a name declared twice inside one type declaration (type declarations stand at the top level)
+DeclKinds == {"dup_field1", "dup_variant1", "ml_dup_field_adj", "ml_dup_field_gap", "ml_dup_field_last", "ml_dup_field_col",
+              "ml_dup_variant_adj", "ml_dup_variant_gap", "ml_dup_variant_last"}
+ConflictKinds == {"conflict", "conflict_eq", "conflict_gt", "conflict_block", "conflict_two"}
+Applicable(c) == /\ CASE c.kind \in DupKinds \cup MLFromKinds \cup DeclKinds -> c.pos \in TopPos
                       [] c.kind = "const_local" -> c.pos \in InFnPos
                       [] OTHER -> TRUE
                  /\ c.rel # "def_earlier" => c.kind \in FromKinds
@@ -153,6 +209,12 @@ Construct(kind, top) ==
       [] kind = "dup_from_from"  -> "from /twin use lv as lw"      \* collides with `from /leaf use lv as lw`
       [] kind = "dup_from_use"   -> "from /twin use lv as leaf"    \* collides with `use /leaf`
       [] kind = "dup_use_from"   -> "use /twin as lw"              \* collides with `from /leaf use lv as lw`
+      [] kind = "conflict_eq"    -> "======="
+      [] kind = "conflict_gt"    -> ">>>>>>> other"
+      [] kind \in DDKinds        -> PlantDef(DDPair(kind)[1], OrigName(DDPair(kind)[2]))
+      [] kind \in DIKinds        -> PlantImp(DIPair(kind)[1], OrigName(DIPair(kind)[2]))
+      [] kind = "dup_field1"     -> "Pb :: blob { x: int, y: int, x: str }"
+      [] kind = "dup_variant1"   -> "Pe :: enum Va, Vb int, Va str end"
 
 (* The planted form of every kind: its lines as <<relative indentation level, text>> and the offending element as
    <<line of the form, characters before it on that line, spelling>>.  The older kinds are one line, the element is
@@ -180,6 +242,20 @@ FormLines(kind, top) ==
                                     ELSE <<<<0, "if (">>, <<1, "ga > 0 and">>, <<1, "1 < \"a\"">>, <<0, ") do">>, <<1, "ga">>,
                                            <<0, "end">>>>
       [] kind = "ml_const_lambda" -> <<<<0, "pz :: apply(fn do">>, <<1, "ga = 5">>, <<0, "end)">>>>
+      [] kind = "conflict_block" -> <<<<0, "<<<<<<< HEAD">>, <<0, "pa :: 1">>, <<0, "=======">>, <<0, "pa :: 2">>,
+                                      <<0, ">>>>>>> other">>>>
+      \* two begin markers, a look-alike between them
+      [] kind = "conflict_two"   -> <<<<0, "<<<<<<< HEAD">>, <<0, "pa :: \"<<<<<<< mine\"">>, <<0, "<<<<<<< other">>>>
+      [] kind = "ml_dup_field_adj"  -> <<<<0, "Pb :: blob {">>, <<1, "x: int,">>, <<1, "x: str,">>, <<0, "}">>>>
+      [] kind = "ml_dup_field_gap"  -> <<<<0, "Pb :: blob {">>, <<1, "x: int,">>, <<1, "y: int,">>, <<1, "x: str,">>,
+                                         <<1, "z: int,">>, <<0, "}">>>>
+      [] kind = "ml_dup_field_last" -> <<<<0, "Pb :: blob {">>, <<1, "x: int,">>, <<1, "y: int,">>, <<1, "z: int,">>,
+                                         <<1, "x: str">>, <<0, "}">>>>
+      [] kind = "ml_dup_field_col"  -> <<<<0, "Pb :: blob {">>, <<1, "x: int,">>, <<1, "y: int, x: str,">>, <<0, "}">>>>
+      [] kind = "ml_dup_variant_adj"  -> <<<<0, "Pe :: enum">>, <<1, "Va,">>, <<1, "Va,">>, <<0, "end">>>>
+      [] kind = "ml_dup_variant_gap"  -> <<<<0, "Pe :: enum">>, <<1, "Va,">>, <<1, "Vb int,">>, <<1, "Va str,">>, <<1, "Vc,">>,
+                                           <<0, "end">>>>
+      [] kind = "ml_dup_variant_last" -> <<<<0, "Pe :: enum">>, <<1, "Va">>, <<1, "Vb">>, <<1, "Vc">>, <<1, "Va">>, <<0, "end">>>>
       [] OTHER -> SL(kind, top)
 Elem(kind, top) ==
     CASE kind \in {"ml_arg_paren"}  -> <<3, 0, "\"s\"">>
@@ -193,12 +269,24 @@ Elem(kind, top) ==
       [] kind = "ml_op_paren"       -> <<3, 0, "1 + \"a\"">>
       [] kind = "ml_op_cond"        -> <<IF top THEN 4 ELSE 3, 0, "1 < \"a\"">>
       [] kind = "ml_const_lambda"   -> <<2, 0, "ga = 5">>
+      [] kind \in BlockKinds        -> <<1, 0, "<<<<<<< HEAD">>
+      [] kind = "dup_field1"        -> <<1, 29, "x: str">>
+      [] kind = "dup_variant1"      -> <<1, 23, "Va str">>
+      [] kind = "ml_dup_field_adj"  -> <<3, 0, "x: str">>
+      [] kind = "ml_dup_field_gap"  -> <<4, 0, "x: str">>
+      [] kind = "ml_dup_field_last" -> <<5, 0, "x: str">>
+      [] kind = "ml_dup_field_col"  -> <<3, 8, "x: str">>
+      [] kind = "ml_dup_variant_adj"  -> <<3, 0, "Va">>
+      [] kind = "ml_dup_variant_gap"  -> <<4, 0, "Va str">>
+      [] kind = "ml_dup_variant_last" -> <<5, 0, "Va">>
       [] OTHER -> <<1, 0, Construct(kind, top)>>
+\* the second offending element of a TwoKinds form
+Elem2(kind, top) == <<3, 0, "<<<<<<< other">>
 
 (* The line(s) a preceding-text shape puts directly before the planted line ('@' stands for any
    non-ASCII character).  "crlf" and "tabs" are whole-file styles, "none" adds nothing. *)
 BaseLineShapes == {"ascii_comment", "nonascii_comment", "nonascii_string", "ml_string2", "ml_string3", "blank_lines"}
-LineShapes == BaseLineShapes \cup Range(StrShapes) \cup Range(ComboShapes)
+LineShapes == BaseLineShapes \cup Range(StrShapes) \cup Range(ComboShapes) \cup Range(MarkShapes)
 Cmt == "// a plain comment: x :: ) $ break"
 \* a string literal in one of the places a string can stand; an expression statement cannot stand at the top level,
 \* there it is the body of a one-line function definition (like Construct)
@@ -218,6 +306,13 @@ ShapeLines(shape, top) ==
       [] shape = "cmt_onlynl"       -> <<Cmt, WrapStr("init", StrText("onlynl"), top)>>
       [] shape = "endnl_cmt"        -> <<WrapStr("init", StrText("endnl"), top) \o " // trailing: x :: ) $">>
       [] shape = "nonascii_endnl"   -> <<"s1 :: \"gr@@e @ @ @@\n\"">>
+      [] shape = "mk_lt_cmt"        -> <<"// after a merge look for \"<<<<<<< HEAD\" in here">>
+      [] shape = "mk_lt_str"        -> <<WrapStr("init", "<<<<<<< HEAD", top)>>
+      [] shape = "mk_lt_mlstr"      -> <<WrapStr("init", "first\n  <<<<<<< HEAD", top)>>
+      [] shape = "mk_eq_mlstr"      -> <<WrapStr("init", "first\n=======\nsecond", top)>>
+      [] shape = "mk_gt_mlstr"      -> <<WrapStr("init", "first\n>>>>>>> other", top)>>
+      [] shape = "mk_eqgt_cmt"      -> <<"// =======", "// >>>>>>> other">>
+      [] shape = "mk_lt_two"        -> <<"// <<<<<<< HEAD and <<<<<<<<<<<<<< again", WrapStr("init", "x <<<<<<< y", top)>>
       [] OTHER -> LET cp == PairOf(shape) IN <<WrapStr(cp[2], StrText(cp[1]), top)>>
 \* the shape as text: every line indented by I and ended by a newline
 ShapeText(shape, top, I) == LET ls == ShapeLines(shape, top) IN
@@ -255,14 +350,17 @@ ElemOff(fl, el, I, U, E) ==
 
 \* the form start fs is line-initial, the whole planted form stands there (its lines alone on their lines) and the
 \* marker p points at the offending element inside it
-MarkerOK(c, t, p, fs) ==
+\* (p2: the second offending element of a TwoKinds form, 0 for every other kind)
+MarkerOK(c, t, p, fs, p2) ==
     LET fl == FormLines(c.kind, IsTop(c)) el == Elem(c.kind, IsTop(c)) I == Indent(t, fs) IN
     /\ fs >= 1 /\ fs <= p /\ LineStartOK(t, fs)
     /\ \E U \in Units, E \in Ends :
           /\ InText(t, fs, FormSeg(fl, 1, Len(fl), I, U, E))
           /\ p = fs + ElemOff(fl, el, I, U, E)
+          /\ IF c.kind \in TwoKinds THEN p2 = fs + ElemOff(fl, Elem2(c.kind, IsTop(c)), I, U, E) ELSE p2 = 0
     /\ InText(t, p, el[3])
-    /\ (c.kind \in MLKinds) = (LineOf(t, p) > LineOf(t, fs))
+    /\ c.kind \in TwoKinds => InText(t, p2, Elem2(c.kind, IsTop(c))[3]) /\ LineOf(t, p2) > LineOf(t, p)
+    /\ (c.kind \in MLKinds) = (\E q \in fs..(p - 1) : Ch(t, q) = NL)      \* the element is on a later line than fs
 
 \* spellings that define the duplicated name (the planted one and the one already in the template)
 DefSpellings(kind) == CASE kind = "dup_global" -> {"ga :: "}
@@ -272,6 +370,9 @@ DefSpellings(kind) == CASE kind = "dup_global" -> {"ga :: "}
                         [] kind = "dup_from_from" -> {"from /twin use lv as lw", "from /leaf use lv as lw"}
                         [] kind = "dup_from_use"  -> {"from /twin use lv as leaf", "use /leaf"}
                         [] kind = "dup_use_from"  -> {"use /twin as lw", "from /leaf use lv as lw"}
+                        [] kind \in DDKinds       -> {OrigName(DDPair(kind)[2]) \o " :: "}
+                        [] kind \in DIKinds       -> {PlantImp(DIPair(kind)[1], OrigName(DIPair(kind)[2])),
+                                                      OrigName(DIPair(kind)[2]) \o " :: "}
                         [] OTHER               -> {}
 
 Sites(t, kind) == LET sp == DefSpellings(kind) first == {Ch(s, 1) : s \in sp} IN
@@ -293,6 +394,13 @@ Verdict(c, el, res, efile, eline) ==
       [] eline < el              -> "earlier"
       [] eline > el              -> "later"
       [] OTHER                   -> "conforms"
+\* the second error against the second offending element (line el2) of a TwoKinds form
+Verdict2(c, el2, efile2, eline2) ==
+    CASE eline2 = 0               -> "second-missing"
+      [] efile2 # ExpectedFile(c) -> "second-other-file"
+      [] eline2 < el2             -> "second-earlier"
+      [] eline2 > el2             -> "second-later"
+      [] OTHER                    -> "conforms"
 
 \* the text before the marker has the shape the case names
 \* (p: the start of the planted form)
@@ -328,14 +436,17 @@ Sample(I, s, kd, top, e) == LET ls == ShapeLines(s, top) IN
     (IF Len(ls) = 1 THEN I \o ls[1] \o e ELSE I \o ls[1] \o e \o I \o ls[2] \o e)
         \o I \o Construct(kd, top) \o e \o "end" \o e
 SampleKinds == {"syn_rparen", "const_global", "dup_from_from"}     \* for the newer shapes (the construct matters little here)
+\* (of the 16 duplicate definitions one per planted kind)
+OneLineSampleKinds == ((Range(Kinds) \ MultiKinds) \ {DDName(pf, of) : pf \in Range(DefForms), of \in {"val", "fn", "enum"}})
+                          \ {DIName(im, of) : im \in Range(ImpForms), of \in {"val", "fn", "enum"}}
 SLSampleTexts ==
-    {Sample(I, s, kd, top, e) : I \in Indents, s \in BaseLineShapes, kd \in Range(Kinds) \ MLKinds, top \in BOOLEAN, e \in Ends}
+    {Sample(I, s, kd, top, e) : I \in Indents, s \in BaseLineShapes, kd \in OneLineSampleKinds, top \in BOOLEAN, e \in Ends}
     \cup {Sample(I, s, kd, top, e) : I \in Indents, s \in LineShapes \ BaseLineShapes, kd \in SampleKinds,
                                      top \in BOOLEAN, e \in Ends}
 \* the multi-line forms, in every indentation, unit and line end
 MLSampleTexts ==
     {I \o FormSeg(FormLines(kd, top), 1, Len(FormLines(kd, top)), I, U, e) :
-        I \in Indents, U \in Units, kd \in MLKinds, top \in BOOLEAN, e \in Ends}
+        I \in Indents, U \in Units, kd \in MultiKinds, top \in BOOLEAN, e \in Ends}
 SampleTexts == SLSampleTexts \cup MLSampleTexts
 
 DiagInit == /\ text \in SampleTexts
@@ -354,13 +465,17 @@ ColSane == /\ ColOf(text, pos) >= 1
            /\ (pos > 1 /\ Ch(text, pos - 1) = NL) => ColOf(text, pos) = 1
            /\ (pos > 1 /\ Ch(text, pos - 1) # NL) => LineOf(text, pos) = LineOf(text, pos - 1)
 
+\* the line of p counted as the number of line starts up to p (a second formulation next to SyltLex!LineOf, which
+\* counts the newlines before p; the trace model compares the two on every recorded text)
+LineByStarts(t, p) == Cardinality({q \in 1..p : q = 1 \/ Ch(t, q - 1) = NL})
+
 RECURSIVE CountNL(_, _)
 CountNL(t, n) == IF n = 0 THEN 0 ELSE CountNL(t, n - 1) + (IF Ch(t, n) = NL THEN 1 ELSE 0)
 
 \* the sample's planted construct sits where counting newlines says it does
 SampleMarker(t) == CHOOSE p \in 2..Len(t) :
                         /\ Ch(t, p) \notin Blank \cup {NL} /\ LineStartOK(t, p)      \* (cheap conjuncts first)
-                        /\ \E kd \in Range(Kinds) \ MLKinds, top \in BOOLEAN :
+                        /\ \E kd \in OneLineSampleKinds, top \in BOOLEAN :
                               InText(t, p, Construct(kd, top) \o NL) \/ InText(t, p, Construct(kd, top) \o "\r\n")
 SampleLineOK == (pos = 1 /\ text \in SLSampleTexts) => LET p == SampleMarker(text) IN LineOf(text, p) = 1 + CountNL(text, p - 1)
 
@@ -384,12 +499,31 @@ EndsNLShapes == {s \in LineShapes : \E l \in Range(ShapeLines(s, TRUE)) : NLBefo
 MultiLineStringShapes == {s \in LineShapes \ {"blank_lines"} : \E l \in Range(ShapeLines(s, TRUE)) : NLs(l) > 0}
 ContentNLs(ct) == CASE ct \in {"two", "endnl", "startnl", "crlfmid", "crlfend"} -> 1 [] OTHER -> 2
 ApplicableCases == {Case(i) : i \in ApplicableIdx}
+MkLt == "<<<<<<<"
+MkEq == "======="
+MkGt == ">>>>>>>"
+Occurs(l, w) == {q \in 1..Len(l) : InText(l, q, w)}
+IsCmt(l) == InText(l, 1, "//")
+\* shapes that hold the begin marker (where it is no conflict): told to the check for its control (g)
+LtDecoyShapes == {sh \in LineShapes : \E l \in Range(ShapeLines(sh, TRUE)) : Occurs(l, MkLt) # {}}
+\* the declared name an element begins with (up to the first character that is not a letter), and the places
+\* <<line of the form, column>> where a form writes that name as a whole word
+Letters == {"a", "b", "c", "d", "e", "f", "g", "h", "i", "j", "k", "l", "m", "n", "o", "p", "q", "r", "s", "t", "u", "v",
+            "w", "x", "y", "z", "A", "B", "C", "D", "E", "F", "G", "H", "I", "J", "K", "L", "M", "N", "O", "P", "Q", "R",
+            "S", "T", "U", "V", "W", "X", "Y", "Z"}
+DeclName(e) == LET n == CHOOSE d \in 1..Len(e) : /\ \A j \in 1..d : Ch(e, j) \in Letters
+                                                  /\ (d = Len(e) \/ Ch(e, d + 1) \notin Letters)
+               IN SubSeq(e, 1, n)
+Writings(fl, nm) == {w \in (1..Len(fl)) \X (1..40) :
+                        /\ InText(fl[w[1]][2], w[2], nm)
+                        /\ (w[2] = 1 \/ Ch(fl[w[1]][2], w[2] - 1) \notin Letters)
+                        /\ (w[2] + Len(nm) > Len(fl[w[1]][2]) \/ Ch(fl[w[1]][2], w[2] + Len(nm)) \notin Letters)}
 UniverseOK ==
     /\ \A kd \in Range(Kinds)  : \E c \in ApplicableCases : c.kind = kd
     /\ \A f \in Range(Files)   : \E c \in ApplicableCases : c.file = f
-    /\ \A kd \in Range(Kinds), f \in Range(Files) : \E c \in ApplicableCases : c.kind = kd /\ c.file = f
+    /\ {<<c.kind, c.file>> : c \in ApplicableCases} = Range(Kinds) \X Range(Files)
     /\ \A q \in Range(Poss)    : \E c \in ApplicableCases : c.pos = q
-    /\ \A s \in Range(Shapes), kd \in Range(Kinds) : \E c \in ApplicableCases : c.shape = s /\ c.kind = kd
+    /\ {<<c.shape, c.kind>> : c \in ApplicableCases} = Range(Shapes) \X Range(Kinds)
     /\ Cardinality({Case(i) : i \in 1..NCases}) = NCases /\ Cardinality(ApplicableCases) = Cardinality(ApplicableIdx)
     /\ Cardinality(Range(Kinds)) = NK /\ Cardinality(Range(Shapes)) = NS
     \* every form line is one line, the element is spelled where Elem says; the multi-line kinds - and only they - have
@@ -400,9 +534,59 @@ UniverseOK ==
           /\ \A j \in 1..Len(fl) : Len(fl[j][2]) > 0 /\ NLs(fl[j][2]) = 0 /\ fl[j][1] \in 0..3
           /\ InText(fl[el[1]][2], el[2] + 1, el[3])
           /\ (kd \in MLKinds) = (el[1] > 1)
-          /\ kd \notin MLKinds => Len(fl) = 1 /\ el[2] = 0 /\ el[3] = fl[1][2]
+          /\ (kd \in MultiKinds) = (Len(fl) > 1)
+          /\ kd \notin MultiKinds \cup DeclKinds => el[2] = 0 /\ el[3] = fl[1][2]
+          /\ kd \in TwoKinds => LET e2 == Elem2(kd, top) IN
+                                 e2[1] \in (el[1] + 1)..Len(fl) /\ InText(fl[e2[1]][2], e2[2] + 1, e2[3])
     /\ Cardinality({FormLines(kd, FALSE) : kd \in Range(Kinds)}) = NK
     /\ MLKinds \subseteq Range(Kinds) /\ MLFromKinds \subseteq MLKinds /\ MLKinds \cap DupKinds = {}
+    /\ BlockKinds \subseteq Range(Kinds) /\ BlockKinds \cap MLKinds = {} /\ TwoKinds \subseteq BlockKinds
+    /\ DeclKinds \subseteq Range(Kinds) /\ DeclKinds \cap DupKinds = {} /\ ConflictKinds \subseteq Range(Kinds)
+    \* duplicate definitions: every ordered pair of kinds of definition is a kind of the universe, the planted definition
+    \* is of the first kind and bears the name the templates define with the second kind; at a first and at a later
+    \* top-level position, so each pair of kinds is written in both orders
+    /\ \A pf \in Range(DefForms), of \in Range(DefForms) :
+          /\ DDName(pf, of) \in Range(Kinds) /\ DDPair(DDName(pf, of)) = <<pf, of>>
+          /\ Construct(DDName(pf, of), TRUE) = PlantDef(pf, OrigName(of))
+          /\ \A q \in TopPos, f \in Range(Files), sh \in Range(Shapes) :
+                [kind |-> DDName(pf, of), file |-> f, pos |-> q, shape |-> sh, rel |-> "def_earlier"] \in ApplicableCases
+    /\ \A im \in Range(ImpForms), of \in Range(DefForms) :
+          /\ DIName(im, of) \in Range(Kinds) /\ DIPair(DIName(im, of)) = <<im, of>>
+          /\ Construct(DIName(im, of), TRUE) = PlantImp(im, OrigName(of))
+          /\ \A q \in TopPos, f \in Range(Files), sh \in Range(Shapes) :
+                [kind |-> DIName(im, of), file |-> f, pos |-> q, shape |-> sh, rel |-> "def_earlier"] \in ApplicableCases
+    /\ Cardinality(DIKinds) = NIF * NDF /\ DIKinds \cap FromKinds = {}
+    /\ Cardinality(DDKinds) = NDF * NDF /\ Cardinality({OrigName(of) : of \in Range(DefForms)}) = NDF
+    /\ Cardinality({PlantDef(pf, "N") : pf \in Range(DefForms)}) = NDF
+    \* a name declared twice inside one declaration: the element is the LAST of exactly two writings of its name in the
+    \* form; on the line of the first writing (one-line forms, _col has other text before it), directly after it, with
+    \* declarations between, as the last declaration
+    /\ \A kd \in DeclKinds, top \in BOOLEAN :
+          LET fl == FormLines(kd, top) el == Elem(kd, top) ws == Writings(fl, DeclName(el[3])) IN
+          /\ Cardinality(ws) = 2 /\ <<el[1], el[2] + 1>> \in ws
+          /\ \A w \in ws : w[1] < el[1] \/ (w[1] = el[1] /\ w[2] <= el[2] + 1)
+    /\ \E kd \in DeclKinds : Elem(kd, TRUE)[1] = 1 /\ Elem(kd, TRUE)[2] > 0
+    /\ \E kd \in DeclKinds : Elem(kd, TRUE)[1] > 1 /\ Elem(kd, TRUE)[2] > 0
+    /\ \E kd \in DeclKinds : Elem(kd, TRUE)[1] = Len(FormLines(kd, TRUE)) - 1
+    \* conflict markers: each of the three markers alone is a kind; a block's element is its first line
+    /\ {Construct(kd, TRUE) : kd \in {"conflict", "conflict_eq", "conflict_gt"}} = {"<<<<<<< HEAD", "=======", ">>>>>>> other"}
+    /\ \A kd \in BlockKinds, top \in BOOLEAN : InText(FormLines(kd, top)[1][2], 1, MkLt)
+    \* marker look-alikes: never the begin marker at the start of a line (that would be a conflict), but the begin marker
+    \* in a comment, in a literal's first line and on a continuation line of a literal; the other two markers in comments
+    \* and at the start of a line inside a literal; two look-alikes in one shape
+    /\ \A sh \in Range(MarkShapes), top \in BOOLEAN : \A l \in Range(ShapeLines(sh, top)) :
+          /\ ~InText(l, 1, MkLt) /\ Occurs(l, NL \o MkLt) = {}
+          /\ Occurs(l, MkLt) \cup Occurs(l, MkEq) \cup Occurs(l, MkGt) # {}
+    /\ \A top \in BOOLEAN :
+          /\ \E sh \in Range(MarkShapes) : \E l \in Range(ShapeLines(sh, top)) : IsCmt(l) /\ Occurs(l, MkLt) # {}
+          /\ \E sh \in Range(MarkShapes) : \E l \in Range(ShapeLines(sh, top)) : ~IsCmt(l) /\ NLs(l) = 0 /\ Occurs(l, MkLt) # {}
+          /\ \E sh \in Range(MarkShapes) : \E l \in Range(ShapeLines(sh, top)) :
+                \E q \in Occurs(l, MkLt) : CountNL(l, q) > 0
+          /\ \A mk \in {MkEq, MkGt} :
+                /\ \E sh \in Range(MarkShapes) : \E l \in Range(ShapeLines(sh, top)) : IsCmt(l) /\ Occurs(l, mk) # {}
+                /\ \E sh \in Range(MarkShapes) : \E l \in Range(ShapeLines(sh, top)) : Occurs(l, NL \o mk) # {}
+          /\ \E sh \in Range(MarkShapes) : Cardinality(UNION {Occurs(l, MkLt) : l \in Range(ShapeLines(sh, top))}) >= 2
+    /\ LtDecoyShapes \subseteq Range(MarkShapes) /\ Cardinality(LtDecoyShapes) >= 3 /\ Range(MarkShapes) \ LtDecoyShapes # {}
     \* elements at the 2nd, 3rd and a later, last line of a form; some followed by further elements, some not
     /\ {2, 3, 4, 5} \subseteq {Elem(kd, FALSE)[1] : kd \in MLKinds}
     /\ \E kd \in MLKinds : Elem(kd, FALSE)[2] > 0
@@ -414,7 +598,7 @@ UniverseOK ==
     \* every duplicate kind has two different spellings of the name's introductions, the planted one among them
     /\ \A kd \in DupKinds : /\ Cardinality(DefSpellings(kd)) \in {1, 2}
                              /\ (\E sp \in DefSpellings(kd) : InText(Construct(kd, TRUE), 1, sp))
-                             /\ (\A sq \in DefSpellings(kd), m \in MLKinds, top \in BOOLEAN :
+                             /\ (\A sq \in DefSpellings(kd), m \in MultiKinds, top \in BOOLEAN :
                                    \A j \in 1..Len(FormLines(m, top)) : ~InText(FormLines(m, top)[j][2], 1, sq))
     /\ \A kd \in Range(Kinds) \ DupKinds : DefSpellings(kd) = {}
     /\ FromKinds \subseteq DupKinds
